@@ -182,6 +182,7 @@ func runEngineSpec(r *Result, m *Model, env *engineEnv, ps *PlanSpec, o engineOp
 	newTracerInto(env)
 	ix := buildIndex(ps)
 	desc := any(ps)
+	breadcrumb(desc)
 	p, err := env.submit(ps, 0)
 	if err != nil {
 		r.finding(Finding{Kind: "crash", Clause: "ENG.submit", Text: err.Error(), Case: desc})
